@@ -421,6 +421,17 @@ where
             // no line ending at end of last record
             self.buf_pos.pos.1 = self.get_buf().len();
             self.validate()?;
+            // validate() compares the line lengths including the terminators; the sequence
+            // line has one but the quality line has not, therefore compare the actual lengths
+            let seq = self.buf_pos.seq(self.get_buf()).len();
+            let qual = self.buf_pos.qual(self.get_buf()).len();
+            if seq != qual {
+                return Err(Error::UnequalLengths {
+                    seq,
+                    qual,
+                    pos: self.get_error_pos(0, true),
+                });
+            }
             return Ok(true);
         }
 
